@@ -32,6 +32,7 @@ type Options struct {
 	Trace         bool
 	MapReverse    bool // iterate maps in reverse insertion order
 	StopAtFirst   bool
+	KnownTags     []string // path tags of listed known findings: such violations do not count towards the 25-violation stop
 	Witnesses     int  // number of end-of-path models to sample for native validation
 	Thorough      bool
 	Deadline      time.Time
@@ -90,6 +91,7 @@ type Result struct {
 	Trivial       int            `json:"trivial_asserts"`
 	Inconclusive  []string       `json:"inconclusive"`
 	Violations    []Violation    `json:"violations"`
+	KnownDropped  int            `json:"known_dropped,omitempty"` // further instances of listed known findings (not stored)
 	Reach         map[string]int `json:"reach"`
 	Assumes       map[string]int `json:"assumes"`
 	AssumePruned  int            `json:"assume_pruned_paths"`
@@ -187,6 +189,8 @@ type Interp struct {
 	tags      []string
 	pathUnknown bool
 	timeSeq   *sym.Term
+	knownSeen map[string]int
+	knownKept int
 	frozenClock *sym.Term // set by vsym.FreezeClock: the environment clock stands still (observability-only uses of time)
 	seq       int
 	concPos   int
@@ -286,7 +290,7 @@ func (in *Interp) Run(fn *ssa.Function) *Result {
 		if in.opts.StopAtFirst && len(res.Violations) > 0 {
 			break
 		}
-		if len(res.Violations) >= 25 {
+		if len(res.Violations)-in.knownKept >= 25 {
 			res.Truncated = "stopped after 25 violations"
 			break
 		}
@@ -908,6 +912,23 @@ func (in *Interp) reportViolation(kind, msg, stack string) {
 		v.Inputs = in.modelInputs()
 	} else {
 		v.Inputs = in.modelInputs()
+	}
+	for _, kt := range in.opts.KnownTags {
+		for _, t := range v.Tags {
+			if t == kt {
+				// an instance of a listed finding: keep a few per (tag, message, site), keep exploring
+				if in.knownSeen == nil {
+					in.knownSeen = map[string]int{}
+				}
+				k := kt + "|" + v.Msg + "|" + v.Site
+				in.knownSeen[k]++
+				if in.knownSeen[k] > 3 {
+					in.res.KnownDropped++
+					return
+				}
+				in.knownKept++
+			}
+		}
 	}
 	in.res.Violations = append(in.res.Violations, v)
 }
